@@ -193,6 +193,10 @@ func (p *PsUnpacker) FeedRtpBody(rtpBody []byte, rtpts uint32) error {
 	for p.buf.Len() != 0 {
 		rb := p.buf.Bytes()
 		i := 0
+		if len(rb) < 4 {
+			// start code is not complete yet, wait for the next rtp packet
+			return nil
+		}
 		code := bele.BeUint32(rb[i:])
 		i += 4
 
